@@ -479,6 +479,14 @@ fn bounded_program_case(st: &mut (Option<Impl>, ReplHighlighter), acc: &mut Acc,
         }
     }
     if let Some(im) = st.0.as_mut() {
+        // the other public question a front end asks after every input (completion): the names bound so far
+        let vm = &mut im.vm;
+        if let Err(e) = std::panic::catch_unwind(std::panic::AssertUnwindSafe(|| vm.global_symbols().len())) {
+            problems.push(("global_symbols".into(), panic_message(&e)));
+            st.0 = None;
+        }
+    }
+    if let Some(im) = st.0.as_mut() {
         match im.eval_text("(+ 1 2)") {
             ImplOut::Value(c) if format!("{:#}", c) == "3" => {}
             other => {
